@@ -132,10 +132,12 @@ def gen_history(r, short=False, ticks=False, lag=0):
     c = r.random()
     if c < 0.75:
       ops.append(('store', r.choice(metrics), 100 + r.randrange(nt) + (0.5 if r.random() < 0.15 else 0)))
+      if r.random() < 0.05:
+        ops[-1] = ('store', ops[-1][1], r.choice([1727864000000, 253402300800, 10 ** 15, 0]) + r.randrange(2))
     elif c < 0.9:
-      ops.append(('query', r.choice(metrics)))
+      ops.append(('query', r.choice(metrics + ['never.stored'])))
     else:
-      ops.append(('bulk', r.sample(metrics, r.randint(1, nm))))
+      ops.append(('bulk', r.sample(metrics + ['never.stored'], r.randint(1, nm))))
   ndr = r.randint(1, 3) if short else r.randint(2, nm + 3)
   return ops, ndr
 
